@@ -6,12 +6,14 @@ def gen(tier, seed):
     L = ["from harness.c17lib import *", ""]
     conds = []
 
-    def add(fn, sig, body, pre, what, args, timeout=None):
+    def add(fn, sig, body, pre, what, args, timeout=None, viol=None):
         fn = "h_" + fn
         L.extend(["def %s(%s) -> bool:" % (fn, args), '    """'] + ["    " + p for p in pre] + ["    post: _", '    """', "    return " + body, ""])
         c = {"fn": fn, "what": what, "sig": sig, "structure": "trajectory"}
         if timeout:
             c["timeout"] = timeout
+        if viol:
+            c["viol"] = viol
         conds.append(c)
     shapes = [("g211", 3, 2, 2), ("g321", 2, 3, 6), ("g111", 1, 2, 1), ("tri", 2, 3, 3), ("pair", 4, 2, 2)]
     if tier != "quick":
@@ -25,6 +27,9 @@ def gen(tier, seed):
         add("coords_%s" % kind, "c17-coords", "coords_consistent(%r, %d, s, n, x, y, z)" % (kind, nsamp),
             ["pre: 0 <= s < %d and 0 <= n < %d and 0 <= x < %d and 0 <= y < %d and 0 <= z < %d" % (ns, nsamp, w, h, d)],
             "cells addressed by (x,y,z) read the same entry as by linear index (%s)" % kind, "s: int, n: int, x: int, y: int, z: int", timeout=240)
+    add("defaults", "c17-defaults", "defaults_consistent('g321', 3, s, k)", ["pre: 0 <= s <= 2 and 0 <= k <= 10"],
+        "arguments left at their defaults: get_trajectory(species) is the trajectory at position 0 without merging, get_sample_index(t) uses the 'closest' policy", "s: int, k: int",
+        viol="a default argument of a trajectory accessor does not mean what the documentation says")
     for unit, factor in (("s", 1.0), ("ms", 1e-3), ("min", 60.0), ("h", 3600.0)):
         for policy in ("closest", "infeq", "supeq"):
             add("lookup_%s_%s" % (unit, policy), "c17-lookup:%s" % policy, "lookup_ok((t0, t1, t2), t, %r, %r, %r)" % (unit, factor, policy),
